@@ -309,14 +309,28 @@ fn enumerate_derived_candidates(
                         }
                         if matches_pattern {
                             let mut new_binds = Bindings::new();
+                            // A variable that occurs more than once in the pattern must
+                            // receive the same value at every occurrence.
+                            let mut consistent = true;
                             for (i, bt) in bound_terms.iter().enumerate() {
                                 if let BoundTerm::Unbound(var) = bt {
                                     if let Some(val) = tuple.get(i) {
-                                        new_binds.insert(var.clone(), val.clone());
+                                        match new_binds.get(var) {
+                                            Some(existing) if existing != val => {
+                                                consistent = false;
+                                                break;
+                                            }
+                                            Some(_) => {}
+                                            None => {
+                                                new_binds.insert(var.clone(), val.clone());
+                                            }
+                                        }
                                     }
                                 }
                             }
-                            candidates.push((tuple, new_binds));
+                            if consistent {
+                                candidates.push((tuple, new_binds));
+                            }
                         }
                     }
                 }
